@@ -79,6 +79,16 @@ def export(src=None, extra_crates=None, pkg_args=None, target=None):
     finally:
         fcntl.flock(lock, fcntl.LOCK_UN)
         lock.close()
+    # the manifests the build was configured by (dependency features are part of the program: C14.R9)
+    man = {}
+    for mp in [os.path.join(src, 'Cargo.toml')] + sorted(glob.glob(os.path.join(src, '*', 'Cargo.toml'))):
+        if os.path.exists(mp) and os.sep + 'target' + os.sep not in mp:
+            try:
+                man[os.path.relpath(mp, src)] = open(mp).read()
+            except OSError:
+                pass
+    with open(os.path.join(out, 'MANIFESTS.json'), 'w') as fh:
+        json.dump({'manifests': man}, fh)
     return out
 
 
@@ -223,6 +233,7 @@ class Facts:
     def __init__(self, directory):
         self.dir = directory
         self.crates = {}
+        self.manifests = None
         for p in sorted(glob.glob(os.path.join(directory, '*.json')) + glob.glob(os.path.join(directory, '*.json.gz'))):
             if p.endswith('.gz'):
                 import gzip
@@ -232,6 +243,9 @@ class Facts:
             else:
                 d = json.load(open(p))
                 unit = os.path.basename(p).rsplit('.', 2)[0]
+            if os.path.basename(p).startswith('MANIFESTS'):
+                self.manifests = d.get('manifests')
+                continue
             if unit in self.crates:
                 # a crate analysed twice (lib + test target): keep the larger
                 if len(d['fns']) < len(self.crates[unit]['fns']):
